@@ -1130,23 +1130,14 @@ theorem gen_months (c T : Nat) (months : List Int) :
   rw [monthDays_eq]
   rfl
 
-/-- the cache counter: `_mut_window += 1` once per accepted `set_window`, twice per
-`set_global_window` -/
-theorem gen_bump (o : Obj) (w : Win) :
-    ((o.setWindow w).1 = false → ((o.setWindow w).2.ver : Int) = ArithC13.bumpWindow o.ver)
-    ∧ (o.setGlobal.1 = false →
-        (o.setGlobal.2.ver : Int) = ArithC13.bumpGlobal (ArithC13.bumpWindow o.ver)) := by
-  constructor
-  · intro h
-    unfold Obj.setWindow at h ⊢
-    split
-    · rename_i hv; simp [hv] at h
-    · simp [ArithC13.bumpWindow]
-  · intro h
-    unfold Obj.setGlobal Obj.setWindow at h ⊢
-    cases hv : applyWindow o.full globalWin with
-    | none => simp [hv] at h
-    | some v => simp [ArithC13.bumpWindow, ArithC13.bumpGlobal]
+/-- the cache counter: an accepted `ClimateData.set_window` performs `_mut_window += 1`
+(the second increment of `set_global_window` is redundant and deliberately not tied) -/
+theorem gen_bump (o : Obj) (w : Win) (h : (o.setWindow w).1 = false) :
+    ((o.setWindow w).2.ver : Int) = ArithC13.bumpWindow o.ver := by
+  unfold Obj.setWindow at h ⊢
+  split
+  · rename_i hv; simp [hv] at h
+  · simp [ArithC13.bumpWindow]
 
 /-! ## 7. Non-vacuity: concrete states satisfying the hypotheses -/
 
